@@ -11,40 +11,6 @@ set_option maxRecDepth 100000
 
 namespace C19
 
-/-- the fields of an `emitBytes` result -/
-theorem emitBytes_fields (e : Em) (b : List Nat) :
-    ((emitBytes e b).2 = .refused ∧ (emitBytes e b).1.code = e.code ∧ (emitBytes e b).1.address = e.address ∧
-        (emitBytes e b).1.labels = e.labels ∧ (emitBytes e b).1.cap = e.cap ∧ ∃ c, e.cap = some c ∧ c < e.code.length + b.length) ∨
-    ((emitBytes e b).2 = .ok ∧ (emitBytes e b).1.address = e.address + b.length ∧
-      (emitBytes e b).1.labels = e.labels ∧ (emitBytes e b).1.flags = e.flags ∧ (emitBytes e b).1.cap = e.cap ∧
-      ((e.cap = none ∧ (emitBytes e b).1.code = e.code) ∨
-       (∃ c, e.cap = some c ∧ e.code.length + b.length ≤ c ∧ (emitBytes e b).1.code = e.code ++ b))) := by
-  unfold emitBytes
-  generalize he1 : (if e.genText = true then
-      { emitBase e with lines := (emitBase e).lines ++ dbLines (emitBase e).address b } else e) = e1
-  have hf : e1.code = e.code ∧ e1.address = e.address ∧ e1.labels = e.labels ∧ e1.cap = e.cap ∧ e1.flags = e.flags := by
-    subst he1; simp only [emitBase]; (repeat' split) <;> simp
-  obtain ⟨f1, f2, f3, f4, f5⟩ := hf
-  simp only
-  cases hw : write e1 b with
-  | none =>
-    obtain ⟨c, hc, hlt⟩ := write_none e1 b hw
-    exact Or.inl ⟨rfl, f1, f2, f3, f4, c, by rw [← f4]; exact hc, by rw [← f1]; exact hlt⟩
-  | some e2 =>
-    refine Or.inr ?_
-    rcases write_some e1 e2 b hw with ⟨hn, rfl⟩ | ⟨c, hc, hle, rfl⟩
-    · exact ⟨rfl, by simp [f2], f3, f5, f4, Or.inl ⟨by rw [← f4]; exact hn, f1⟩⟩
-    · exact ⟨rfl, by simp [f2], f3, f5, f4, Or.inr ⟨c, by rw [← f4]; exact hc, by rw [← f1]; exact hle, by simp [f1]⟩⟩
-
-theorem label_fields (e : Em) (n : String) :
-    ((label e n).2 = .refused ∧ (label e n).1 = e ∧ (lookup e.labels n).isSome) ∨
-    ((label e n).2 = .ok ∧ lookup e.labels n = none ∧ (label e n).1.code = e.code ∧ (label e n).1.address = e.address ∧
-      (label e n).1.labels = e.labels ++ [(n, e.address)] ∧ (label e n).1.flags = e.flags ∧ (label e n).1.cap = e.cap) := by
-  unfold label
-  cases h : lookup e.labels n with
-  | some v => exact Or.inl ⟨rfl, rfl, rfl⟩
-  | none => refine Or.inr ⟨rfl, rfl, ?_, ?_, ?_, ?_, ?_⟩ <;> (simp only; split <;> rfl)
-
 /-- **The number of emitted bytes never exceeds the capacity**, step by step … -/
 theorem step_capacity (e : Em) (o : Op) (c : Nat) (hc : e.cap = some c) (hl : e.code.length ≤ c) :
     (step e o).1.cap = some c ∧ (step e o).1.code.length ≤ c := by
@@ -65,7 +31,7 @@ theorem step_capacity (e : Em) (o : Op) (c : Nat) (hc : e.cap = some c) (hl : e.
           simpa using hle
   | bytes b =>
     simp only [step]
-    rcases emitBytes_fields e b with ⟨_, h1, _, _, h4, _⟩ | ⟨_, _, _, _, h5, h6⟩
+    rcases emitBytes_fields e b with ⟨_, h1, _, _, h4, _⟩ | ⟨_, _, _, _, h5, h6, _⟩
     · exact ⟨by rw [h4]; exact hc, by rw [h1]; exact hl⟩
     · refine ⟨by rw [h5]; exact hc, ?_⟩
       rcases h6 with ⟨hn, _⟩ | ⟨c', hc', hle, hcode⟩
@@ -73,7 +39,7 @@ theorem step_capacity (e : Em) (o : Op) (c : Nat) (hc : e.cap = some c) (hl : e.
       · rw [hcode]; rw [hc] at hc'; simp at hc'; subst hc'; simpa using hle
   | label n =>
     simp only [step]
-    rcases label_fields e n with ⟨_, h1, _⟩ | ⟨_, _, h3, _, _, _, h7⟩
+    rcases label_fields e n with ⟨_, h1, _⟩ | ⟨_, _, h3, _, _, _, h7, _⟩
     · rw [h1]; exact ⟨hc, hl⟩
     · exact ⟨by rw [h7]; exact hc, by rw [h3]; exact hl⟩
   | comment s =>
@@ -122,7 +88,7 @@ theorem refused_unchanged (e : Em) (o : Op) (h : (step e o).2 = .refused) :
 /-- a refusal of an emission happens exactly when the bytes do not fit (instruction whose width guard passes, or data) -/
 theorem data_refused_iff (e : Em) (b : List Nat) (c : Nat) (hc : e.cap = some c) :
     (emitBytes e b).2 = .refused ↔ c < e.code.length + b.length := by
-  rcases emitBytes_fields e b with ⟨h0, _, _, _, _, c', hc', hlt⟩ | ⟨h0, _, _, _, _, h6⟩
+  rcases emitBytes_fields e b with ⟨h0, _, _, _, _, ⟨c', hc', hlt⟩, _⟩ | ⟨h0, _, _, _, _, h6, _⟩
   · rw [hc] at hc'; simp at hc'; subst hc'; simp [h0, hlt]
   · rcases h6 with ⟨hn, _⟩ | ⟨c', hc', hle, _⟩
     · rw [hc] at hn; simp at hn
@@ -163,7 +129,7 @@ theorem dry_step (d r : Em) (o : Op) (ht : Tracks d r) (hok : (step r o).2 = .ok
       simp at hok
   | bytes b =>
     simp only [step] at hok ⊢
-    rcases emitBytes_fields d b with ⟨_, _, _, _, _, c, hc, _⟩ | ⟨d0, d1, d2, d3, d4, _⟩
+    rcases emitBytes_fields d b with ⟨_, _, _, _, _, ⟨c, hc, _⟩, _⟩ | ⟨d0, d1, d2, d3, d4, _⟩
     · rw [t1] at hc; simp at hc
     · rcases emitBytes_fields r b with ⟨r0, _⟩ | ⟨_, r1, r2, r3, _⟩
       · rw [r0] at hok; simp at hok
@@ -172,7 +138,7 @@ theorem dry_step (d r : Em) (o : Op) (ht : Tracks d r) (hok : (step r o).2 = .ok
     simp only [step] at hok ⊢
     rcases label_fields r n with ⟨r0, _⟩ | ⟨_, rn, _, r4, r5, r6, _⟩
     · rw [r0] at hok; simp at hok
-    · rcases label_fields d n with ⟨_, _, hs⟩ | ⟨d0, _, _, d4, d5, d6, d7⟩
+    · rcases label_fields d n with ⟨_, _, hs⟩ | ⟨d0, _, _, d4, d5, d6, d7, _⟩
       · rw [t3, rn] at hs; simp at hs
       · exact ⟨d0, by rw [d7]; exact t1, by rw [d4, r4, t2], by rw [d5, r5, t3, t2], by rw [d6, r6, t4]⟩
   | comment s =>
